@@ -39,7 +39,7 @@ Definition case_ok (c : pcase) : bool :=
         | _ => negb hsok && (en =? 3)
         end).
 (* one handshaker: the failures reported are exactly those of the connections whose own bytes are wrong (never
-   "closed": nobody closed the handshaker), no Wait blocks although other peers stall, and Close returns *)
+   "closed": nobody closed the handshaker), no Wait blocks although other peers stall, and Close returns after having closed the connections whose handshake was still in flight *)
 Definition expected_fails (cs : list pcase) : list N :=
   sortN (flat_map (fun c => if is_stalled c then [] else match hs_of c with HsOk => [] | k => [hs_kind k] end) cs).
 Definition scenario_ok (s : scenario) : bool :=
@@ -48,13 +48,16 @@ Definition scenario_ok (s : scenario) : bool :=
 Definition send_ok (c : bool * list (string * string) * string) : bool :=
   let '(ipc, specs, wrote) := c in
   bytes_eqb (unhex wrote) (concat (map (fun hb => frame ipc (unhex (fst hb)) (unhex (snd hb))) specs)).
+(* a connection registered just after Close is shut down, and the registering call returns *)
+Definition late_ok (c : string * bool * bool) : bool := let '(_, a, b) := c in a && b.
+Definition bad_late := Eval vm_compute in bad_idx late_ok late_cases.
 Definition bad_scen := Eval vm_compute in bad_idx scenario_ok hs_scenarios.
 Definition bad_send := Eval vm_compute in bad_idx send_ok send_cases.
 Definition kinds := Eval vm_compute in
   map (fun k => count_true (fun c => hs_kind (hs_of c) =? k) (flat_map (fun s => fst (fst (fst s))) hs_scenarios)) [0; 2; 3; 4; 5].
 Definition nstalled := Eval vm_compute in count_true is_stalled (flat_map (fun s => fst (fst (fst s))) hs_scenarios).
 Definition ncases := Eval vm_compute in N.of_nat (length (flat_map (fun s => fst (fst (fst s))) hs_scenarios)).
-Print bad_scen. Print bad_send. Print kinds. Print nstalled. Print ncases.
+Print bad_late. Print bad_scen. Print bad_send. Print kinds. Print nstalled. Print ncases.
 """
 
 
@@ -65,13 +68,14 @@ def run(res, pid):
         res.violation("stream:harness-abort", "the stream-transport harness did not complete on the current tree (rc=%d): %s" % (rc, se[-800:]),
                       {"stderr": se[-4000:], "correspondence": "cmd/stream vs Model/Wire.v"}, found_input=("panic:" in se))
         return {"stream_scenarios": 0}
-    nscen = nsend = ncases = nstalled = 0
+    nscen = nsend = ncases = nstalled = nlate = 0
     kinds = [0] * 5
     for fname, text, out in shards:
         scen = items(text, "hs_scenarios")
         sends = items(text, "send_cases")
         nscen += len(scen)
         nsend += len(sends)
+        nlate += len(items(text, "late_cases"))
         ncases += int((core.parse_printed(out, "ncases") or "0").strip() or 0)
         nstalled += int((core.parse_printed(out, "nstalled") or "0").strip() or 0)
         ks = core.parse_nlist(core.parse_printed(out, "kinds")) or []
@@ -80,7 +84,10 @@ def run(res, pid):
                 ("hs_scenarios", scen, "bad_scen",
                  "over a connection that delivers the peer's bytes in pieces, the handshake outcome, the messages delivered, how the connection ended, "
                  "or the handshaker's behaviour next to stalled peers differs from Model/Wire.v (hs_check / parse_stream)"),
-                ("send_cases", sends, "bad_send", "the bytes Send wrote differ from Model/Wire.v frame")):
+                ("send_cases", sends, "bad_send", "the bytes Send wrote differ from Model/Wire.v frame"),
+                ("late_cases", items(text, "late_cases"), "bad_late",
+                 "a connection handed to a closed handshaker / websocket listener (Close ran between the caller's check and the registration) was left open, "
+                 "or the registering call never returned: (what, first flag, second flag) = for Start: (connection closed, -); for the websocket upgrade: (ServeHTTP returned, connection closed)")):
             bad = core.parse_nlist(core.parse_printed(out, bname))
             if bad is None:
                 raise core.Broken("could not parse " + bname)
@@ -88,7 +95,7 @@ def run(res, pid):
                 case = its[i] if i < len(its) else "?"
                 res.violation("stream:%s" % name, what, {"group": name, "shard": fname, "index": i, "case": case[:6000], "model": "Model/Wire.v",
                               "format": "scenario = ([(ipc, self, peer, maxrx, incoming hex, read sizes, stalled, (handshake ok, bytes written hex, delivered hex list, "
-                                        "end: 0 eof/2 too long/3 none/4 other/5 blocked/6 panic))], sorted failure kinds 1 closed/2 header/3 version/4 proto/5 io, a Wait blocked?, Close returned?)"})
+                                        "end: 0 eof/2 too long/3 none/4 other/5 blocked/6 panic))], sorted failure kinds 1 closed/2 header/3 version/4 proto/5 io, a Wait blocked?, Close returned and closed the stalled connections?)"})
     return {"stream_scenarios": nscen, "stream_connections": ncases,
             "stream_handshake_kinds[ok,header,version,proto,short]": kinds,
-            "stream_stalled_connections": nstalled, "stream_send_cases": nsend}
+            "stream_stalled_connections": nstalled, "stream_send_cases": nsend, "registration_after_close_scenarios": nlate}
